@@ -1,9 +1,9 @@
 # memfault-insert-after-clear (family exhaustive): asan
 salloc 0 2 2
 salloc 1 2 2
-sins 0 0 0
+sins 0 0 1
 sclear 0
-sins 0 1 0
+sins 0 1 1
 sfree 0
 sfree 1
 reset
